@@ -202,6 +202,36 @@ def biased_doc(rng, size, samebare=False):
             a.schema = 'sa_' + a.name
         a.alias = a.name
         return doc
+    if samebare == 'widetwins' and len(doc.tables) >= 2:
+        # two equally named tables in different schemas, both WIDE (more columns than any short-cut threshold) and with equal
+        # column names; a reference into the second and one into the first: each endpoint must be the column of ITS table
+        a, b = doc.tables[0], doc.tables[1]
+        if a.schema == b.schema:
+            b.schema = 'sb_' + b.schema
+        b.name = a.name
+        n = rng.choice([17, 25, 26, 33, 65, 130])
+        for t in (a, b):
+            have = {c.name for c in t.columns}
+            for j in range(n):
+                if f'w{j}' not in have:
+                    t.columns.append(am.Column(f'w{j}', am.ColType('plain', 'int')))
+        si = 2 if len(doc.tables) > 2 else 0
+        src = doc.tables[si]
+        for tgt in (1, 0):
+            doc.refs.append(am.Ref('>', si, [src.columns[0].name], tgt, [f'w{rng.randrange(n)}']))
+            doc.order.append(('r', len(doc.refs) - 1))
+        return doc
+    if samebare == 'wstwin' and len(doc.tables) >= 2:
+        # a quoted name with blanks at its edge next to its stripped twin (table and schema level); both are members of a group
+        a, b = doc.tables[0], doc.tables[1]
+        b.schema = a.schema
+        b.name = rng.choice([a.name + ' ', ' ' + a.name, ' ' + a.name + ' '])
+        if len(doc.tables) > 2 and a.schema != 'public' and rng.random() < 0.5:
+            c = doc.tables[2]
+            c.schema, c.name = a.schema + ' ', a.name
+        doc.groups.append(am.Group(f'gws{rng.randrange(10**6)}', [1, 0] + ([2] if len(doc.tables) > 2 else [])))
+        doc.order.append(('g', len(doc.groups) - 1))
+        return doc
     if samebare and len(doc.tables) >= 2:
         a, b = doc.tables[0], doc.tables[1]
         if a.schema == b.schema:
@@ -225,7 +255,7 @@ def run_shard(spec, tier, seed, budget_s):
     with monitors.ReachMonitor() as reach:
         while k < target and not sh.out_of_time():
             k += 1
-            samebare = rng.choice([False, False, False, False, False, False, True, True, 'aliasshadow', 'aliasshadow-public', 'selfalias'])
+            samebare = rng.choice([False, False, False, False, False, False, True, True, 'aliasshadow', 'aliasshadow-public', 'selfalias', 'widetwins', 'wstwin'])
             doc = biased_doc(rng, 'large' if k <= 2 else rng.choice(['small', 'medium', 'medium'] + (['large'] if tier == 'thorough' else [])), samebare)
             suite = samebare if isinstance(samebare, str) else ('samebare' if samebare else 'random')
             if doc.enums and rng.random() < 0.3:
@@ -280,7 +310,8 @@ def conclusive(agg, tier):
             'enumitem.note.parent', 'ref.database', 'ref.col1', 'ref.col2', 'ref.col1.inline', 'ref.col2.inline',
             'table.get_refs', 'column.get_refs', 'group.database', 'group.items', 'group.note.parent', 'sticky.database', 'project.database',
             'project.note.parent']
-    return [f'assertion class {k} was never evaluated' for k in need if not c.get('obs.assert.' + k)]
+    out = [f'assertion class {k} was never evaluated' for k in need if not c.get('obs.assert.' + k)]
+    return out + [f'{k} is zero' for k in ('obs.docs.widetwins', 'obs.docs.wstwin') if not c.get(k)]
 
 
 def replay(v):
